@@ -71,9 +71,38 @@ def runQueries (o : Op) (file : Bytes) : String :=
       | .ok db => "|".intercalate (qs.map fun q => showVerdict (db.checkHostKey now q.addr q.remote q.key))
   | _, _, _ => "bad-op"
 
+/-- `New(files...)`: files are opened and read one after the other into ONE database; line numbers restart
+    in every file (the model encodes (file i, line n) as `i * 1000000 + n`); `none` = a file that does not exist -/
+def readFiles (kt : KeyTab) : DB → Nat → List (Option Bytes) → Except String DB
+  | db, _, [] => .ok db
+  | _, i, none :: _ => .error s!"open-err:{i}"
+  | db, i, some f :: rest =>
+    match readLines kt db (i * 1000000) (scanLines f) with
+    | .error n => .error s!"parse-err:{n / 1000000}.{n % 1000000}"
+    | .ok db' => readFiles kt db' (i + 1) rest
+
+def showFL (n : Nat) : String := s!"{n / 1000000}.{n % 1000000}"
+
+def showVerdictM : Verdict → String
+  | .ok => "ok"
+  | .revoked n => s!"revoked:{showFL n}"
+  | .keyErr ls => "keyerr:" ++ (if ls.isEmpty then "-/u" else ",".intercalate (ls.map showFL) ++ "/m")
+  | .reject => "reject"
+
 def handle (line : String) : String :=
   let o := parseOp line
   match o.cmd with
+  | "khm" =>
+    let files := (splitList (o.str "files") ";").mapM fun e => if e == "x" then some none else (ofHex e).map some
+    match files, (o.get? "kt").bind parseKT, (o.get? "certs").bind parseCerts, o.int? "now" with
+    | some fs, some kt, some certs, some now =>
+      match (splitList (o.str "q") ",").mapM (parseQuery certs) with
+      | none => "bad-op"
+      | some qs =>
+        match readFiles kt DB.empty 0 fs with
+        | .error e => e
+        | .ok db => "|".intercalate (qs.map fun q => showVerdictM (db.checkHostKey now q.addr q.remote q.key))
+    | _, _, _, _ => "bad-op"
   | "khp" =>   -- former known-finding classes (marker / case), now ordinary cases of the fixed code
     match o.hex? "file" with
     | some f => runQueries o f
